@@ -43,7 +43,7 @@ func (m c03mon) Check(s *sim.Sim, st *sim.Step) []*sim.Violation {
 		// count blocked attempts (evidence that the guards were exercised)
 		if pid := a.PID; a.Kind == flow && st.UIDOut == st.UIDIn {
 			if strings.HasSuffix(flow, "_validate") {
-				pid = subjectPID(rec.SessIn, strings.SplitN(flow, "_", 2)[0])
+				pid = subjectOf(s, rec, strings.SplitN(flow, "_", 2)[0])
 			}
 			if u := rec.Before.Users[pid]; u != nil {
 				if s.Cfg.Has("lock") && u.Locked.After(now) && rec.Location == world.PathLockNotOK {
@@ -90,7 +90,7 @@ func (m c03mon) Sig(s *sim.Sim, st *sim.Step) string {
 	flow := flowOf(s, rec)
 	pid := st.Act.PID
 	if strings.HasSuffix(flow, "_validate") {
-		pid = subjectPID(rec.SessIn, strings.SplitN(flow, "_", 2)[0])
+		pid = subjectOf(s, rec, strings.SplitN(flow, "_", 2)[0])
 	}
 	if flow == "" {
 		if rec.Kind != "http" || !strings.HasPrefix(rec.Target, "/protected/") {
